@@ -7,12 +7,14 @@ import (
 	"fmt"
 	"os"
 
+	"verif/harness/comp/pool"
 	"verif/harness/comp/ring"
 	"verif/harness/internal/hx"
 )
 
 var components = map[string]func(o *hx.Out, g *hx.Rng, tier string){
 	"ring": ring.Run,
+	"pool": pool.Run,
 }
 
 func main() {
